@@ -40,16 +40,16 @@ class Interpreter:
         return self.interpret(contents, os.path.basename(filename))
 
     def interpret(self, script, filename, environment=None):
-        savedParent = None
+        root = None
         if environment is None:
             env = self.environment
         else:
             environment_ = environment
             while environment_ and environment_.parent:
                 environment_ = environment_.parent
-            if environment_:
-                savedParent = environment_.parent
-                environment_.withParent(self.environment)
+            if environment_ and environment_ is not self.base_environment:
+                root = environment_
+                root.withParent(self.environment)
             env = environment
         try:
             result = parse_script(script, filename).evaluate(env)
@@ -69,9 +69,7 @@ class Interpreter:
                 )
             return result
         finally:
-            if savedParent:
-                environment_ = environment
-                while environment_ and environment_.parent:
-                    environment_ = environment_.parent
-                if environment_:
-                    environment_.withParent(savedParent)
+            if root is not None:
+                # detach the caller's environment again, so that it can be
+                # passed to a later call
+                root.withParent(None)
